@@ -158,6 +158,9 @@ func genMixedRequest(r *core.Rand, id int, limit int, allowFaults bool) ReqSpec 
 				scripts = append(scripts, []HStep{{Op: "duplex"}})
 			}
 			h.Steps = scripts[r.Intn(len(scripts))]
+			if len(h.Steps) == 1 && h.Steps[0].Op == "duplex" && r.Chance(1, 2) {
+				sp.LazyCtx = true
+			}
 		}
 	}
 	if r.Chance(1, 6) {
